@@ -45,6 +45,12 @@ CHECKS = {
          "and the element/character events equal the tree (comments and doctype omitted) with attributes' values and qualified names as derived from unadjustForeignAttributes.",
     note="Recorder handler; trees bounded by 3 nodes; reference derived independently from constants.adjustForeignAttributes. " + NOTE_COMMON,
     design="§3 C19"),
+ "C08": dict(
+    technique="bounded symbolic execution (CrossHair/z3) of the real HTMLSerializer.serialize with symbolic Unicode text / attribute values and symbolic options, output re-tokenised by the independent reference tokenizer R1 in the parser's tokenizer state; z3 regex-language inclusion on the live quoting regexes",
+    text="For each of 16 element kinds (normal, RCDATA, RAWTEXT, script, noscript, foreign style/title/script ...) with Characters or SpaceCharacters of <= 2/3 arbitrary Unicode characters, and for start/empty tags with attributes (keys by index over plain / boolean / namespaced / hyphenated, values of <= 1/2 arbitrary characters), with every escaping, quoting, minimisation, solidus and sorting option symbolic: either serializer.errors is non-empty or the output, newline-normalised and re-tokenised by R1 in the state the standard's tree construction selects, yields exactly the given tokens. "
+         "Comments and doctype identifiers producible by parsing (via R1 over a class alphabet). z3: the language of values left unquoted by _quoteAttributeSpec/_quoteAttributeLegacy (translated from the live patterns, unbounded strings) contains no whitespace, '>', quote, '=', '<' or backtick.",
+    note="R1/R10 trusted; 8 listed known findings (raw text by bare name, plaintext, escape_rcdata in raw text, raw CR, boolean minimisation, namespace prefixes, unquoted value + solidus, quote in public id) are excluded by signature and their witnesses replayed; streams of more than one element and encoded output are outside the claim. " + NOTE_COMMON,
+    design="§3 C08"),
  "C02": dict(
     technique="bounded symbolic execution (CrossHair/z3) of the real tokenizer state methods from catalogue pre-states on a symbolic continuation of arbitrary Unicode characters, differentially against an independent transcription of the WHATWG tokenizer (R1)",
     text="For every state method of the live HTMLTokenizer class (catalogue rebuilt from /repo at check time: 119 pre-states over 7 configurations = 5 start states x last start tag x CDATA allowed/not) the real tokenizer is run from that pre-state on EVERY string of <= 2 (quick) / 3 (thorough) Unicode characters followed by end of input, "
